@@ -29,7 +29,19 @@ type Rule struct {
 
 var registry = map[string]*Rule{}
 
-func register(r *Rule) { registry[r.Prop] = r }
+func register(r *Rule) {
+	run := r.Run
+	r.Run = func(c *Ctx) {
+		curCtx = c
+		optAliasMemo = map[string]bool{}
+		run(c)
+	}
+	registry[r.Prop] = r
+}
+
+// curCtx is the context of the rule being run (one rule per process run and
+// configuration); used by helpers that need the program without being handed it.
+var curCtx *Ctx
 
 // Get returns the rule set for a property id.
 func Get(prop string) *Rule { return registry[prop] }
